@@ -183,9 +183,15 @@ def run(ctx):
 
     ctx.rule("R20.9", "the host's package is recognised under every spelling of the requirement: the installed version is looked up for the distribution name, "
              "without an [extras] suffix (a lookup that finds nothing makes the package 'not installed' and the host's copy is replaced)", floor=2)
-    for line, dist in (("foo[extra]==2.0.0", "foo"), ("foo[extra]", "foo"), ("foo==2.0.0", "foo")):
+    for line, dist in (("foo[extra]==2.0.0", "foo"), ("foo[extra]", "foo"), ("foo==2.0.0", "foo"),
+                       # every place that looks the installed version up: the first sighting, and a pin replacing an unpinned entry (both orders, one and two files)
+                       (["foo[extra]", "foo[extra]==2.0.0"], "foo"), (["foo[extra]==2.0.0", "foo[extra]"], "foo"), (["foo[extra]==1.0.0", "foo[extra]==2.0.0"], "foo")):
         asked = []
-        _merge(program, [[line], []], consts, asked=asked)
+        if isinstance(line, list):
+            _merge(program, [line, []], consts, asked=asked)
+            _merge(program, [line[:1], line[1:]], consts, asked=asked)
+        else:
+            _merge(program, [[line], []], consts, asked=asked)
         ctx.check(bool(asked) and set(asked) == {dist}, "R20.9", PROC, f"installed version of `{line}` is looked up as {dist!r}",
                   msg=f"requirement `{line}`: the installed version is looked up under {sorted(set(asked))} instead of {dist!r}: importlib.metadata finds nothing, the package counts as "
                   f"not installed and is handed to the installer although the host has it", key=f"lookup name {line}", node=program.func(PROC), rel="requirements.py")
